@@ -3,13 +3,13 @@ import SaModel.Props.C08
 import SaModel.Lemmas.C03Trace
 /-
 C03 for TRACED schemas: when the schema is what serde_arrow's own `from_type` returns, the schema-side hypotheses of
-`C03_wf` other than `Safe` are theorems.
+`C03_wf'` other than `Safe ∨ coveredF` are theorems.
 
   fromType_good    Trace.fromType c O ty = ok fields → every field is `SchemaOKF` (no `FixedSizeBinary(0)`) and the field
                    list is well typed (`typedFs`: sizes `i32`, union type ids `i8`) — `Props.C08.C08_from_type` (the
                    tracer returns the documented mapping, ∀ types, ∀ options) + `Lemmas.C03.mapping_good`; the user's
                    overwrites are taken as given, so they must satisfy the same two conditions (vacuous without overwrites)
-  C03_wf_traced    `C03_wf_codec_typed` for such a schema: what remains is `Safe` (schema) and `typed` (rows)
+  C03_wf_traced    `C03_wf_codec_typed` for such a schema: what remains is `Safe ∨ coveredF` (schema) and `typed` (rows)
 -/
 namespace SaModel.Props.C03
 open SaModel SaModel.Build SaModel.Spec
@@ -29,12 +29,14 @@ theorem fromType_good (c : Trace.Code) (O : Trace.Options) (ty : Trace.Ty) (fiel
     exact Lemmas.C03.fromTypeSpec_good O ho ty fields hs
   | error e => rw [hs] at hag; exact absurd hag (by simp [Lemmas.C08.Agree])
 
-/-- **C03 for a traced schema, as the driver instantiates it.**  Of the schema only `Safe` is still assumed. -/
+/-- **C03 for a traced schema, as the driver instantiates it.**  Of the schema only `Safe` OR `coveredF` is still assumed
+(the hypothesis of `Props.C01.C03_wf'`; a traced schema with dictionary-encoded strings — a `Dictionary(UInt32, LargeUtf8)`
+column with non-nullable keys below an `Option<struct>` — is outside `Safe`, inside `coveredF`: `exTracedFields`). -/
 theorem C03_wf_traced (c : Trace.Code) (O : Trace.Options) (ty : Trace.Ty)
     (f32Str f64Str : Nat → String) (cast : Nat → Int → Bool → Nat → Option (Bool × Int))
     (fields : List Field) (rows : List SVal) (arrs : List Arr)
     (ho : ∀ kv ∈ O.overwrites, Lemmas.C03.GoodF kv.2) (hft : Trace.fromType c O ty = .ok fields)
-    (hsafe : ∀ root0, newRoot fields = .ok root0 → Safe root0)
+    (hsafe : (∀ root0, newRoot fields = .ok root0 → Safe root0) ∨ fields.all Build.coveredF = true)
     (hrows : ∀ x ∈ rows, x.typed = true)
     (h : toMarrow (codecExt f32Str f64Str cast) fields rows = .ok arrs) :
     arrs.length = fields.length ∧
@@ -47,5 +49,22 @@ speaks about a real schema: a dense union with type ids 0, 1 and a `Dictionary(U
 example : (Trace.fromType .fixed { string_dictionary_encoding := true, map_as_struct := false }
     (.struct "S" (.cons "e" (.enum "E" (.newtype "A" (.int .i8) (.newtype "B" .string .nil)))
       (.cons "m" (.map .string (.int .u8)) .nil)))).isOk = true := by decide +kernel
+
+/-- non-vacuity: the traced schema of `R { s: Option<S> }`, `S { d: String }` under dictionary encoding is the kind of
+schema `Safe` excludes and `coveredF` admits -/
+def exTracedFields : List Field :=
+  [.mk "s" (.struct (.cons (.mk "d" (.dictionary .uint32 .largeUtf8) false []) .nil)) true []]
+
+example : Trace.fromType .fixed { string_dictionary_encoding := true }
+      (.struct "R" (.cons "s" (.option (.struct "S" (.cons "d" .string .nil))) .nil)) = .ok exTracedFields ∧
+    exTracedFields.all Build.coveredF = true ∧ (∀ root0, newRoot exTracedFields = .ok root0 → ¬ Safe root0) := by
+  refine ⟨by decide +kernel, by decide +kernel, ?_⟩
+  intro root0 h0
+  rw [show newRoot exTracedFields = .ok (.struct "$" 0 none
+    (.cons (.struct "$.s" 0 (some [])
+        (.cons (.dictionary "$.s.d" (.leaf "$.s.d.key" (.int .u32) none []) (.bytes "$.s.d.value" .largeUtf8 none [0] []) [])
+          ⟨"d", false, []⟩ .nil) [none] 0 [false]) ⟨"s", true, []⟩ .nil) [none] 0 [false]) from by decide] at h0
+  cases h0
+  simp [Safe, SafeL, DefSafe, DefSafeL, B.isNullable]
 
 end SaModel.Props.C03
